@@ -31,6 +31,70 @@ def col_of(cx, i):
     return If(isnl(cx, i), 0, i - lastnl(i))   # 1 + offset from the start of its line
 
 
+any_line = Function('line_on_a_line_break', I, I)      # the statement leaves line/column of an index that HOLDS a line break open
+any_col = Function('column_on_a_line_break', I, I)
+
+
+def line_c(cx, i):
+    """what a caller may rely on: the line of i unless i holds a line break (then: some integer)"""
+    return line_of(cx, i) if cx.text.is_bytes else If(isnl(cx, i), any_line(i), line_of(cx, i))
+
+
+def col_c(cx, i):
+    return col_of(cx, i) if cx.text.is_bytes else If(isnl(cx, i), any_col(i), i - lastnl(i))
+
+
+nlb = Function('lf_bytes', I, I)            # bytes input: number of 0x0A bytes in text[0:i)  (NOT line breaks: bytes input is one line)
+lastnlb = Function('last_lf_byte', I, I)
+
+
+def defs_b(cx, i):
+    is10 = Select(cx.text.arr, i) == 10
+    return [nlb(0) == 0, lastnlb(0) == -1, nlb(i) >= 0, lastnlb(i) >= -1, lastnlb(i) < If(i > 0, i, 0),
+            Implies(i >= 0, And(nlb(i + 1) == nlb(i) + If(is10, 1, 0), lastnlb(i + 1) == If(is10, i, lastnlb(i))))]
+
+
+def install_text_scans(cx, ex):
+    """text.count(LF, a, b) / text.rfind(LF, a, b) / text.find... on the input text, by the spec functions nl / lastnl
+    (python clamps the bounds; negative bounds count from the end)"""
+    def clamp(x):
+        return If(x < 0, If(x + cx.N < 0, 0, x + cx.N), If(x > cx.N, cx.N, x))
+
+    def args_of(node, st, recv):
+        if not (isinstance(recv, TextV) and recv is cx.text) or node.keywords or not (1 <= len(node.args) <= 3):
+            return None
+        sub = ex.ev(node.args[0], st)
+        if not isinstance(sub, StrLit):
+            return None
+        if isinstance(sub.value, bytes) != cx.text.is_bytes:
+            raise OutOfSubset('scan of the text for a value of the other text type (TypeError)')
+        if sub.value not in ('\n', b'\n'):
+            raise OutOfSubset(f'scan of the text for {sub.value!r}')
+        a = clamp(ex.as_int(ex.ev(node.args[1], st))) if len(node.args) > 1 else IntVal(0)
+        b = clamp(ex.as_int(ex.ev(node.args[2], st))) if len(node.args) > 2 else cx.N
+        cnt, lst, d = (nlb, lastnlb, defs_b) if cx.text.is_bytes else (nl, lastnl, defs)
+        st.assume(*d(cx, a), *d(cx, b), *d(cx, b - 1))
+        if not cx.text.is_bytes:
+            st.assume(nl(a) >= 0, nl(b) >= 0, lastnl(b) >= -1, lastnl(b) < If(b > 0, b, 0))
+        return a, b, cnt, lst
+
+    def m_count(ex, node, recv, st):
+        r = args_of(node, st, recv)
+        if r is None:
+            return NotImplemented
+        a, b, cnt, lst = r
+        return If(a <= b, cnt(b) - cnt(a), 0)
+    ex.method_hooks['count'] = m_count
+
+    def m_rfind(ex, node, recv, st):
+        r = args_of(node, st, recv)
+        if r is None:
+            return NotImplemented
+        a, b, cnt, lst = r
+        return If(And(a <= b, lst(b) >= a), lst(b), -1)
+    ex.method_hooks['rfind'] = m_rfind
+
+
 def lastnl_props(cx, i):
     k = Const('k', I)
     return And(-1 <= lastnl(i), lastnl(i) < i, Implies(lastnl(i) >= 0, isnl(cx, lastnl(i))),
@@ -80,8 +144,8 @@ class MapIndexC(RtContract):
             yield 'lengths', And(L.n == i, C.n == i)
             yield 'line-counter', st.env[lv] == 1 + nl(i)
             yield 'column-counter', st.env[cv] == i - 1 - lastnl(i)
-            yield 'lines', ForAll([j], Implies(And(0 <= j, j < i), Select(L.arrs[0], j) == line_of(cx, j)))
-            yield 'columns', ForAll([j], Implies(And(0 <= j, j < i), Select(C.arrs[0], j) == col_of(cx, j)))
+            yield 'lines', ForAll([j], Implies(And(0 <= j, j < i, Not(isnl(cx, j))), Select(L.arrs[0], j) == line_of(cx, j)))
+            yield 'columns', ForAll([j], Implies(And(0 <= j, j < i, Not(isnl(cx, j))), Select(C.arrs[0], j) == col_of(cx, j)))
             yield 'lastnl-bound', lastnl(i) < i
 
         def havoc(ex, st):
@@ -102,8 +166,8 @@ class MapIndexC(RtContract):
             yield 'returns the two lists it built', BoolVal(False)
             return
         yield 'lengths', And(L.n == cx.N, C.n == cx.N)
-        yield 'line = 1 + line breaks before', ForAll([j], Implies(And(0 <= j, j < cx.N), Select(L.arrs[0], j) == line_of(cx, j)))
-        yield 'column = 1 + offset in line', ForAll([j], Implies(And(0 <= j, j < cx.N), Select(C.arrs[0], j) == col_of(cx, j)))
+        yield 'line = 1 + line breaks before (unless the index holds a line break)', ForAll([j], Implies(And(0 <= j, j < cx.N, Not(isnl(cx, j))), Select(L.arrs[0], j) == line_of(cx, j)))
+        yield 'column = 1 + offset in line (unless the index holds a line break)', ForAll([j], Implies(And(0 <= j, j < cx.N, Not(isnl(cx, j))), Select(C.arrs[0], j) == col_of(cx, j)))
 
     def replay(self, cx, ex, m):
         text, N = model_text(cx, m)
@@ -125,7 +189,7 @@ class MapIndexC(RtContract):
 
 def small_texts(is_bytes, maxlen=4):
     import itertools
-    alpha = [b'a', b' ', b'\n'] if is_bytes else ['a', ' ', '\n', '\r']
+    alpha = [b'a', b' ', b'\n', b'\t'] if is_bytes else ['a', ' ', '\n', '\r', '\t']
     out = [b'' if is_bytes else '']
     for n in range(1, maxlen + 1):
         for t in itertools.product(alpha, repeat=n):
@@ -152,7 +216,7 @@ def _bounded_map_index(self, cx):
             last = -1 if cx.text.is_bytes else text.rfind('\n', 0, i)
             if not isn and (L[i] != 1 + before or C[i] != i - last):
                 bad.append({'text': repr(text), 'index': i, 'got': (L[i], C[i]), 'want': (1 + before, i - last)})
-    return bad, tried, 'all texts over {a, space, LF, CR} up to length 5'
+    return bad, tried, 'all texts over {a, space, LF, CR, TAB} up to length 5'
 
 
 MapIndexC.bounded = _bounded_map_index
@@ -180,14 +244,45 @@ class GetLineColC(RtContract):
 
     def hooks(self, cx, ex):
         ex.call_hooks['_map_index_to_line_and_column'] = lambda ex, node, st: call_map_index(cx, ex, node, st)
+        install_text_scans(cx, ex)
 
     def post(self, cx, ex, st, how):
         pos = cx.entry_env['pos']
         ok = how == 'return' and isinstance(st.ret, Tup) and len(st.ret.items) == 2
         yield 'returns-pair', BoolVal(ok)
         if ok:
-            yield 'line', st.ret.items[0] == line_of(cx, pos)
-            yield 'column', st.ret.items[1] == col_of(cx, pos)
+            notnl = Not(isnl(cx, pos))
+            yield 'line (unless the index holds a line break)', Implies(notnl, ex.as_int(st.ret.items[0]) == line_of(cx, pos))
+            yield 'column (unless the index holds a line break)', Implies(notnl, ex.as_int(st.ret.items[1]) == col_of(cx, pos))
+
+    def bounded(self, cx):
+        f = native_namespace()['_get_line_and_column']
+        bad, tried = [], 0
+        for text in small_texts(cx.text.is_bytes, 5):
+            for pos in range(len(text)):
+                if not cx.text.is_bytes and text[pos] == '\n':
+                    continue
+                tried += 1
+                want = (1, pos + 1) if cx.text.is_bytes else (1 + text.count('\n', 0, pos), pos - text.rfind('\n', 0, pos))
+                try:
+                    got = f(text, pos)
+                except Exception as e:
+                    bad.append({'text': repr(text), 'pos': pos, 'raised': repr(e)})
+                    continue
+                if tuple(got) != want:
+                    bad.append({'text': repr(text), 'pos': pos, 'got': repr(got), 'want': want})
+        return bad[:8], tried, 'all texts over {a, space, LF, CR, TAB} up to length 5 x every index that holds no line break'
+
+    def replay(self, cx, ex, m):
+        text, N = model_text(cx, m)
+        if text is None:
+            return {'reproduced': None, 'reason': f'N={N} too large'}
+        pos = m.eval(cx.entry_env['pos'], model_completion=True).as_long()
+        if not (0 <= pos < len(text)) or (not cx.text.is_bytes and text[pos] == '\n'):
+            return {'reproduced': False, 'reason': 'model outside the precondition'}
+        got = native_namespace()['_get_line_and_column'](text, pos)
+        want = (1, pos + 1) if cx.text.is_bytes else (1 + text.count('\n', 0, pos), pos - text.rfind('\n', 0, pos))
+        return {'reproduced': tuple(got) != want, 'text': repr(text), 'pos': pos, 'got': repr(got), 'want': want}
 
 
 class Table(Opaque):
@@ -202,7 +297,7 @@ def call_map_index(cx, ex, node, st):
     if t is not cx.text:
         raise OutOfSubset('_map_index_to_line_and_column on another value')
     install_table_lookup(ex)
-    return Tup([Table('line_numbers', cx.N, lambda i: line_of(cx, i)), Table('column_numbers', cx.N, lambda i: col_of(cx, i))])
+    return Tup([Table('line_numbers', cx.N, lambda i: line_c(cx, i)), Table('column_numbers', cx.N, lambda i: col_c(cx, i))])
 
 
 def install_table_lookup(ex):
@@ -257,7 +352,7 @@ class ExcerptC(RtContract):
         pos = Const('pos', I)
         st.env['text'], st.env['pos'] = cx.text, pos
         st.env['col'] = Const('col', I)
-        st.assume(0 <= pos, pos < cx.N, st.env['col'] == col_of(cx, pos))
+        st.assume(0 <= pos, pos < cx.N, Not(isnl(cx, pos)), st.env['col'] == col_of(cx, pos))   # requires: pos holds no line break (the statement's quantifier)
         st.assume(lastnl_props(cx, pos))         # lemma (proved by induction: lemma:lastnl-props)
 
     def hooks(self, cx, ex):
@@ -400,13 +495,13 @@ class RaiseErrorC(RtContract):
         def get_lc(ex, node, st):
             pos = ex.as_int(ex.ev(node.args[1], st))
             ex.safety(st, '_get_line_and_column-pre: index of the text', node, And(0 <= pos, pos < cx.N))
-            return Tup([line_of(cx, pos), col_of(cx, pos)])
+            return Tup([line_c(cx, pos), col_c(cx, pos)])
         ex.call_hooks['_get_line_and_column'] = get_lc
 
         def excerpt(ex, node, st):
             pos = ex.as_int(ex.ev(node.args[1], st))
             col = ex.as_int(ex.ev(node.args[2], st))
-            ex.safety(st, '_extract_excerpt-pre', node, And(0 <= pos, pos < cx.N, col == col_of(cx, pos)))
+            ex.safety(st, '_extract_excerpt-pre', node, And(0 <= pos, pos < cx.N, Implies(Not(isnl(cx, pos)), col == col_of(cx, pos))))
             st.ghost['excerpt_for'] = pos
             return Rope([('opaque', 'excerpt', pos)])
         ex.call_hooks['_extract_excerpt'] = excerpt
@@ -445,10 +540,19 @@ class RaiseErrorC(RtContract):
         at_end = pos >= cx.N
         line_v, col_v = ex.box(line), ex.box(col)
         yield 'line/column None exactly at end of input', And(Implies(at_end, And(line_v == NONE, col_v == NONE)),
-                                                             Implies(Not(at_end), And(line_v == ex.box(line_of(cx, pos)), col_v == ex.box(col_of(cx, pos)))))
+                                                             Implies(And(Not(at_end), Not(isnl(cx, pos))), And(line_v == ex.box(line_of(cx, pos)), col_v == ex.box(col_of(cx, pos)))))
         r = as_rope(msg)
         has_exc = r is not None and any(p[0] == 'opaque' and p[1] == 'excerpt' for p in r.pieces)
         yield 'message carries the excerpt unless at end of input', Or(at_end, BoolVal(has_exc))
+        if has_exc:
+            # the caret of the excerpt stands under text[index] only if the excerpt starts at the beginning of a line of the
+            # message and its caret line is not continued: the neighbours of the excerpt are line breaks
+            k = [i for i, p in enumerate(r.pieces) if p[0] == 'opaque' and p[1] == 'excerpt'][0]
+            before = r.pieces[k - 1] if k > 0 else None
+            after = r.pieces[k + 1] if k + 1 < len(r.pieces) else None
+            yield 'excerpt starts on a fresh line of the message', BoolVal(before is not None and before[0] == 'lit' and before[1].endswith('\n'))
+            yield 'nothing follows the caret on its line', BoolVal(after is None or (after[0] == 'lit' and after[1].startswith('\n')))
+            yield 'the excerpt shown is the one of the failure position', st.ghost.get('excerpt_for') == pos if st.ghost.get('excerpt_for') is not None else BoolVal(False)
 def _bounded_excerpt(self, cx):
     bad, tried = [], 0
     import itertools
@@ -488,11 +592,23 @@ def _bounded_raise_error(self, cx):
                 except g.ParseError as e:
                     p = e.position
                     want = (pos, None, None) if pos >= len(text) else (pos, L[pos], C[pos])
-                    if tuple(p) != want and not (pos < len(text) and not cx.text.is_bytes and text[pos] == '\n' and p.index == pos):
+                    on_break = pos < len(text) and not cx.text.is_bytes and text[pos] == '\n'
+                    if tuple(p) != want and not (on_break and p.index == pos):
                         bad.append({'text': repr(text), 'pos': pos, 'position': tuple(p), 'want': want})
+                    elif pos < len(text) and not on_break and not cx.text.is_bytes:
+                        # message: "...:\n<excerpt line>\n<k spaces>^\n<details>": the caret stands under text[pos]
+                        ls = str(e).split('\n')
+                        ci = [i for i, l in enumerate(ls) if l.strip(' ') == '^']
+                        if not ci or ci[0] == 0:
+                            bad.append({'text': repr(text), 'pos': pos, 'message': str(e)[:200], 'what': 'no caret line'})
+                        else:
+                            kk = len(ls[ci[0]]) - 1
+                            shown = ls[ci[0] - 1]
+                            if kk >= len(shown) or shown[kk] != text[pos]:
+                                bad.append({'text': repr(text), 'pos': pos, 'message': str(e)[:200], 'what': 'caret not under text[pos]'})
                 except Exception as e:
                     bad.append({'text': repr(text), 'pos': pos, 'raised': repr(e)})
-    return bad, tried, 'all texts over {a, space, LF, CR} up to length 4 x every position 0..len+1'
+    return bad, tried, 'all texts over {a, space, LF, CR, TAB} up to length 4 x every position 0..len+1'
 
 
 RaiseErrorC.bounded = _bounded_raise_error
